@@ -1095,7 +1095,7 @@ func Prop() *core.Prop {
 		},
 		Cases: func(tier string) int {
 			if tier == "thorough" {
-				return 1500000
+				return 4000000
 			}
 			return 50000
 		},
